@@ -17,6 +17,8 @@ func init() {
 			a.c18Resend()
 			a.endForgetsLastText("P.resend")
 			a.eventsDelivered("P.events-delivered")
+			a.transitionsUnconditional("W.msg-state")
+			a.handlersOnlyThroughTable("S.tlv-loop")
 			// the session ends when the user says so (or the peer disconnects): nothing inside the library calls End
 			if end := a.MustFn("(*Conversation).End"); end != nil {
 				n := 0
